@@ -38,7 +38,8 @@ func (f Float) WriteTerm(w io.Writer, opts *WriteOptions, _ *Env) error {
 		_, _ = ew.Write([]byte(")"))
 	}
 
-	if !openClose && opts.right != (operator{}) && (opts.right.name == atomSmallE || opts.right.name == atomE) {
+	// Avoid reading the operator as (a part of) the exponent: 1.0 e1 x, not 1.0e1 x. Like Integer.WriteTerm.
+	if !openClose && opts.right != (operator{}) && letterDigit(opts.right.name) {
 		_, _ = ew.Write([]byte(" "))
 	}
 
